@@ -24,9 +24,7 @@ namespace avel {
         //=================================================
 
         explicit Denominator(Denom8u denom):
-            m(denom.m),
-            sh2(denom.sh2),
-            d(denom.d) {}
+            Denominator(vec32x8u{denom.value()}) {}
 
         explicit Denominator(vec32x8u d):
             Denominator(d, bit_width(d - vec32x8u{1})) {}
